@@ -913,6 +913,9 @@ func (c *Cursor) search1(ctx context.Context, key interface{}) error {
 			}
 			return cmp <= 0
 		})
+		if err != nil {
+			return err
+		}
 	}
 	pe.linkIndex = i
 	return nil
